@@ -170,10 +170,15 @@ pub fn exercise(bytes: &[u8], tolerant: bool, cached: bool, password: &[u8]) -> 
         // typed loads by model name, asked for by the case: once as a direct entry (the reference is handed to the
         // decoder) and once the way `get` does it (the resolved value is handed to the decoder)
         let typed: Vec<(String, u64)> = TYPED.lock().map(|t| t.clone()).unwrap_or_default();
+        let typed_first = bytes.len() % 2 == 0;
         for (model, id) in typed {
             let pr = PlainRef { id, gen: 0 };
             // first as a plain dictionary (a cached document then holds the object under that type), then as the model
             // through Resolve::get: the typed load finds a cache entry of another type
+            // (every second object is first loaded as the model itself: the cache entry is then in the making while the entries of the value are followed)
+            if id % 2 == 0 || typed_first {
+                o.rec(&format!("typed[{}].get-first", model), guarded(|| crate::registry::get(&model, &r, id).unwrap_or(Ok(()))));
+            }
             o.rec(&format!("typed[{}].as-dictionary", model), guarded(|| r.get::<pdf::primitive::Dictionary>(Ref::from_id(id)).map(|_| ())));
             o.rec(&format!("typed[{}].get", model), guarded(|| crate::registry::get(&model, &r, id).unwrap_or(Ok(()))));
             o.rec(&format!("typed[{}].direct", model), guarded(|| crate::registry::load(&model, Primitive::Reference(pr), &r).unwrap_or(Ok(()))));
